@@ -76,7 +76,7 @@ def parse_dump(lines):
 def split_ops(toks):
     """group the token lines of a case by leading op line: returns list of (head tokens, following detail lines)"""
     heads = {"SOLUTION", "ILP", "NUM", "GETVAL", "PRINTNUM", "LOAD", "PUT", "CAT", "TRYREAD", "READ", "READP", "WRITE", "P", "TRYBASIS", "SOLVE", "OPT",
-             "BASIS", "LOADBASIS", "WRITEBASIS", "READBASIS", "READLOADBASIS", "BOPT", "PRINTSOL", "FREE", "NOPROB", "UNKNOWN"}
+             "BASIS", "LOADBASIS", "WRITEBASIS", "READBASIS", "READLOADBASIS", "BOPT", "PRINTSOL", "FREE", "NOPROB", "UNKNOWN", "EDIT"}
     out = []
     for t in toks:
         if t[0] in heads:
@@ -411,9 +411,73 @@ def norm_stmt(s):
     return " ".join([w[0]] + [qs(qv(t)) for t in w[1:]])
 
 
-def rt_script(cid, P, fmt, with_solve, with_z):
+def gen_edits(rng, P):
+    """a few edits through the public API applied after LOAD: the problem that is written has an edit history
+    (stale range values, deleted rows/columns, changed senses) - the comparison uses the dump taken afterwards.
+    The edits keep the precondition of C08/C09: bounds stay ordered, every column keeps a non-zero coefficient
+    in the objective or a row, a non-empty row remains."""
+    cols = [list(c) for c in P["cols"]]
+    rows = [[n, s_, r, g, [(c, v) for c, v in ent if v != 0]] for (n, s_, r, g, ent) in P["rows"]]
+    out = []
+
+    def fin(x):
+        return not isinstance(x, str)
+
+    def ok(cols_, rows_):
+        if not any(r[4] for r in rows_):
+            return False
+        used = set(c for r in rows_ for c, v in r[4])
+        return all(c[1] != 0 or c[0] in used for c in cols_)
+    for _ in range(rng.randint(1, 3)):
+        k = rng.choice(["chgsense", "chgsense", "chgsense", "chgrange", "chgrhs", "chgbnd", "chgobj", "delrow", "delcol", "objsense"])
+        n, m = len(cols), len(rows)
+        if k == "chgsense" and m:
+            i = rng.randrange(m)
+            rows[i][1] = rng.choice("LGER")
+            out.append("chgsense %d %s" % (i, rows[i][1]))
+        elif k == "chgrange" and m:
+            i = rng.randrange(m)
+            out.append("chgrange %d %d" % (i, rng.randint(0, 9)))          # fails on a non-ranged row: harmless
+        elif k == "chgrhs" and m:
+            out.append("chgrhs %d %d/%d" % (rng.randrange(m), rng.randint(-9, 9), rng.randint(1, 4)))
+        elif k == "chgbnd" and n:
+            j = rng.randrange(n)
+            lo, up = cols[j][2], cols[j][3]
+            v = rng.randint(-5, 9)
+            if rng.random() < 0.5:
+                if not fin(up) or v <= up:
+                    cols[j][2] = v
+                    out.append("chgbnd %d L %d" % (j, v))
+            elif not fin(lo) or v >= lo:
+                cols[j][3] = v
+                out.append("chgbnd %d U %d" % (j, v))
+        elif k == "chgobj" and n:
+            j = rng.randrange(n)
+            v = rng.choice([-3, -2, -1, 1, 2, 3])
+            cols[j][1] = v
+            out.append("chgobj %d %d" % (j, v))
+        elif k == "delrow" and m > 1:
+            i = rng.randrange(m)
+            r2 = rows[:i] + rows[i + 1:]
+            if ok(cols, r2):
+                rows = r2
+                out.append("delrow %d" % i)
+        elif k == "delcol" and n > 1:
+            j = rng.randrange(n)
+            nm = cols[j][0]
+            c2 = cols[:j] + cols[j + 1:]
+            r2 = [[a_, b_, c_, d_, [(c, v) for c, v in e_ if c != nm]] for a_, b_, c_, d_, e_ in rows]
+            if ok(c2, r2):
+                cols, rows = c2, r2
+                out.append("delcol %d" % j)
+        elif k == "objsense":
+            out.append("objsense %s" % rng.choice(["MIN", "MAX"]))
+    return out
+
+
+def rt_script(cid, P, fmt, with_solve, with_z, edits=()):
     e = "lp" if fmt == "LP" else "mps"
-    L = ["CASE %s" % cid, load_block(0, P), "DUMPO h0",
+    L = ["CASE %s" % cid, load_block(0, P)] + ["EDIT h0 %s" % x for x in edits] + ["DUMPO h0",
          "WRITE h0 a.%s %s" % (e, fmt), "CAT a.%s" % e, "READ h1 a.%s %s" % (e, fmt), "DUMPO h1",
          "WRITE h1 b.%s %s" % (e, fmt), "CAT b.%s" % e, "READ h2 b.%s %s" % (e, fmt), "DUMPO h2"]
     if fmt == "MPS":
@@ -458,9 +522,12 @@ def run_roundtrip_check(ck, fmt, pr, gen):
         cid = "g%d" % i
         probs[cid] = P
     k = 0
+    edits = {}
     for cid, P in probs.items():
         k += 1
-        cases.append((cid, rt_script(cid, P, fmt, gen.magnitude_ok(P), k % 5 == 0)))
+        edits[cid] = gen_edits(ck.rng, P) if k % 3 == 0 else []
+        cases.append((cid, rt_script(cid, P, fmt, gen.magnitude_ok(P), k % 5 == 0, edits[cid])))
+    ck.cov["cases_with_edit_history"] = sum(1 for v in edits.values() if v)
     scripts = dict(cases)
     M, outs, crashes, where = run_io_cases(cases, per_case_timeout=120, tag=pid, keep=True)
     crashed = {c[0]: c for c in crashes}
@@ -482,6 +549,8 @@ def run_roundtrip_check(ck, fmt, pr, gen):
         load = o.next("LOAD")
         if load is None or load[0][1] != "OK":
             raise Fail("harness could not build generated problem %s" % cid)
+        for _ in edits[cid]:
+            o.next("EDIT")            # edits may fail (e.g. range on a non-ranged row): the dump below is what counts
         P0 = dump_of(o.next("P"))
         texts = []
 
